@@ -300,8 +300,10 @@ def lex_initial(s: Scanner) -> None:
     elif s.accept("="):
         s.emit(TokenType.EQUAL)
     elif s.accept_prefix("/*"):
+        comment_position = s.get_position()
         while not s.accept_prefix("*/"):
-            s.next()
+            if s.next() is None:
+                raise ScannerException("Unterminated Comment", comment_position)
         s.emit(TokenType.COMMENT)
     else:
         if s.next() is not None:
